@@ -139,7 +139,10 @@ func (s *PutStmt) Validate(ctx *CheckCtx) error {
 }
 
 func (s *PutStmt) validateKVPair(kv *PutKVPair, ctx *CheckCtx) error {
-	if err := kv.Key.Check(ctx); err != nil {
+	// `key` stands for the pair's own key: only the value expression can use it
+	keyCtx := *ctx
+	keyCtx.NotAllowKey = true
+	if err := kv.Key.Check(&keyCtx); err != nil {
 		return err
 	}
 	switch kv.Key.ReturnType() {
